@@ -592,7 +592,7 @@ func c16R8(e *Engine) {
 	if !e.anchor("R8", "lang.evalIdentifier", funnel == nil) {
 		return
 	}
-	n := 0
+	n, nl := 0, 0
 	for _, fn := range e.funcs("lang") {
 		if fn.Parent() != nil || len(fn.Params) == 0 {
 			continue
@@ -641,6 +641,63 @@ func c16R8(e *Engine) {
 		for _, o := range ops {
 			fields[o.field] = true
 		}
+		// list operands (the members of IN, the arguments of a call): evaluated in a loop over a slice field of the node.
+		// The loop must run to exhaustion unless an error is returned – a result decided half-way leaves the remaining
+		// members unevaluated and whatever restricted construct they contain undetected.
+		for _, body := range loops {
+			evaluates := false
+			var at ssa.Instruction
+			for b := range body {
+				for _, in := range b.Instrs {
+					c, ok := in.(*ssa.Call)
+					if !ok || isBuiltin(c) {
+						continue
+					}
+					g := c.Call.StaticCallee()
+					if g == nil || e.fnRole(g) != "lang" || !e.reach(g)[funnel] {
+						continue
+					}
+					for _, a := range c.Call.Args {
+						if descendsFrom(a, node, 0) {
+							evaluates, at = true, in
+						}
+					}
+				}
+			}
+			if !evaluates {
+				continue
+			}
+			nl++
+			construct := e.fname(fn) + ":evaluates-every-list-member"
+			bad := ""
+			for _, ex := range loopExits(body) {
+				if isProgressCond(ex.cond) {
+					continue
+				}
+				// leaving with an error object is fine
+				okExit := false
+				if r, isRet := ex.to.Instrs[len(ex.to.Instrs)-1].(*ssa.Return); isRet {
+					v := strip(retVals(r)[0])
+					if strings.HasSuffix(typeName(v.Type()), "language.Error") {
+						okExit = true
+					}
+					for _, cd := range condsAt(ex.to) {
+						cd = normCond(cd)
+						if c, ok := cd.V.(*ssa.Call); ok && cd.Val && c.Call.StaticCallee() != nil && c.Call.StaticCallee().Name() == "isError" && len(c.Call.Args) == 1 && strip(c.Call.Args[0]) == v {
+							okExit = true
+						}
+					}
+				}
+				if !okExit {
+					bad = "the loop over the members is left at " + e.ipos(ex.from.Instrs[len(ex.from.Instrs)-1]) + " with a result that is not an error"
+				}
+			}
+			if bad != "" {
+				e.fail("R8", construct, e.ipos(at), "%s: the members after that point are never evaluated, so a reserved word, an operator or an unknown function among them goes undetected whenever an earlier member decides the result", bad)
+			} else {
+				e.pass("R8", construct, e.ipos(at), "the member loop ends by exhaustion or with an error object")
+			}
+		}
 		if len(fields) < 2 {
 			continue
 		}
@@ -685,8 +742,8 @@ func c16R8(e *Engine) {
 			e.pass("R8", construct, e.pos(fn.Pos()), "%d operand evaluations dominate every non-error return", len(ops))
 		}
 	}
-	if n < 2 {
-		e.fail("R8", "count:R8", "-", "only %d multi-operand evaluators found", n)
+	if n < 2 || nl < 1 {
+		e.fail("R8", "count:R8", "-", "only %d multi-operand evaluators and %d member loops found", n, nl)
 	}
 }
 
